@@ -16,6 +16,7 @@
 // under the License.
 
 //! Utilizing exact statistics from sources to avoid scanning data
+use arrow::datatypes::Schema;
 use datafusion_common::Result;
 use datafusion_common::config::ConfigOptions;
 use datafusion_common::scalar::ScalarValue;
@@ -88,7 +89,10 @@ impl PhysicalOptimizerRule for AggregateStatistics {
                 // input can be entirely removed
                 Ok(Arc::new(ProjectionExec::try_new(
                     projections,
-                    Arc::new(PlaceholderRowExec::new(plan.schema())),
+                    // The projection only evaluates literals: it needs a single row
+                    // without columns. `PlaceholderRowExec` emits `Null` typed columns,
+                    // which would contradict the aggregate's schema.
+                    Arc::new(PlaceholderRowExec::new(Arc::new(Schema::empty()))),
                 )?))
             } else {
                 plan.map_children(|child| {
